@@ -135,6 +135,8 @@ class Flow:
         self.stream_writes = []               # (func, call node)
         self.set_order_uses = {}              # (func qname, lineno) -> (func, node, what)
         self.nonempty_sites = set()
+        self.module_sites = {}
+        self.mutated = {}                     # allocation site -> (func, call node) of an in-place change
         self.maybe_empty_sites = set()
         self.called = set()
         self.rounds = 0
@@ -205,7 +207,10 @@ class Flow:
 
     def site(self, f, node, kind):
         mod = f.module if isinstance(f, FuncInfo) else f
-        return (kind, mod.name, getattr(node, 'lineno', 0), getattr(node, 'col_offset', 0))
+        s = (kind, mod.name, getattr(node, 'lineno', 0), getattr(node, 'col_offset', 0))
+        if not isinstance(f, FuncInfo):
+            self.module_sites.setdefault(s, node)        # allocated when the module is imported (module level, default arguments)
+        return s
 
     def run_function(self, f):
         if f.name == '__getattribute__':
@@ -1081,6 +1086,9 @@ class Flow:
                 self.add(('E', site), {S(lex if no_linebreak(lex) else ('any', 'split')): None}, 'split')
                 return {('list', site): None}
             return {S(('any', 'str.%s' % meth)): None}
+        if k in ('list', 'set', 'dict') and meth in ('append', 'add', 'extend', 'update', 'insert', 'pop', 'remove', 'discard', 'clear',
+                                                     'setdefault', 'sort', 'reverse', 'popitem'):
+            self.mutated.setdefault(recv[1], (f, e))
         if k in ('list', 'set'):
             site = recv[1]
             if meth in ('append', 'add'):
